@@ -438,8 +438,10 @@ func (g *Gen) symFor(t types.Type, name string, st *State) Val {
 		st.refs = append(st.refs, r)
 		return Val{Ref: r, Len: l, Off: o, Kind: "slice", Ty: t}
 	case *types.Array:
-		a := g.newSym(name, "(Array Int Int)")
-		return Val{T: a, Len: fmt.Sprint(u.Len()), Off: "0", Kind: "slice", Ty: t}
+		// arrays are values: a symbolic array is a private (fresh) backing store with arbitrary contents
+		r := g.freshRef(st)
+		_ = g.hsGet(st)
+		return Val{Ref: r, Len: fmt.Sprint(u.Len()), Off: "0", Kind: "slice", Ty: t}
 	case *types.Map:
 		r := g.newSym(name+"_ref", "Int")
 		g.assume(st, fmt.Sprintf("(>= %s 0)", r))
@@ -593,6 +595,11 @@ func (g *Gen) mergeVal(sel []string, vs []Val) Val {
 		return vs[0]
 	}
 	out := vs[0]
+	for _, v := range vs[1:] {
+		if (v.Elem == nil) != (out.Elem == nil) || (v.Elem != nil && (v.Elem.T != out.Elem.T || v.Elem.Cell != out.Elem.Cell)) {
+			out.Elem = nil
+		}
+	}
 	mk := func(get func(Val) string, sort string) string {
 		e := get(vs[len(vs)-1])
 		for i := len(vs) - 2; i >= 0; i-- {
